@@ -15,6 +15,11 @@ pub fn min_ns() -> i128 { (MIN_DAY as i128 - EPOCH_DAY) * 86_400 * NS }
 pub fn max_ns() -> i128 { ((MAX_DAY as i128 - EPOCH_DAY) * 86_400 + 86_399) * NS + 999_999_999 }
 fn odt(o: Option<DateTime<Utc>>) -> Value { opt(o, |d| ndt(d.naive_utc())) }
 
+/// cycle numbers: all of them in the thorough tier, the ones around 0, the epoch and both range ends (plus a spread) in the quick tier
+pub fn cycle_ks(extra: usize) -> Vec<i64> {
+    if extra >= 4000 { (-656..=656).collect() } else { let mut v: Vec<i64> = vec![-656, -655, -654, -3, -2, -1, 0, 1, 2, 4, 5, 6, 654, 655, 656]; v.extend((-650..650).step_by(97)); v }
+}
+
 pub fn dt_lattice(rng: &mut Rng, extra: usize, leap: bool) -> Vec<NaiveDateTime> {
     let days: Vec<i64> = vec![MIN_DAY, MIN_DAY + 1, -1, 0, 1, 365, 366, 612_410, 612_411, 612_412, 719_162, 719_163, 719_164, 730_119, 730_120, 736_694, 825_913, 825_914, 825_915, MAX_DAY - 1, MAX_DAY];
     let secs: Vec<u32> = vec![0, 1, 59, 60, 43_200, 86_340, 86_398, 86_399];
@@ -26,6 +31,12 @@ pub fn dt_lattice(rng: &mut Rng, extra: usize, leap: bool) -> Vec<NaiveDateTime>
         let n = if rng.chance(1, 2) { rng.range(MIN_DAY, MAX_DAY) } else { rng.range(577_000, 830_000) };
         v.push(mk_ndt(n, rng.range(0, 86_399) as u32, f));
     }
+    // the seams of the 400-year cycle in both conventions (day number = 0 mod 146 097, and 1 January of the years 400 k): a day-count
+    // decomposition by truncating instead of floor division, or a table index computed at the seam, goes wrong exactly there
+    for k in cycle_ks(extra) { for base in [0i64, -365] { for d in [-1i64, 0, 1] {
+        let n = 146_097 * k + base + d;
+        if n >= MIN_DAY && n <= MAX_DAY { v.push(mk_ndt(n, 45_296, 0)); }
+    } } }
     // the ends of the i64-nanosecond window
     v.push(mk_ndt(825_914, 85_636, 854_775_807)); v.push(mk_ndt(825_914, 85_636, 854_775_808));
     v.push(mk_ndt(612_411, 763, 145_224_192)); v.push(mk_ndt(612_411, 763, 145_224_191));
@@ -44,6 +55,11 @@ pub fn run(ctx: &Ctx) -> Value {
             i64::MIN as i128, i64::MIN as i128 + 1, i64::MAX as i128 - 1, i64::MAX as i128, (i64::MAX as i128).div_euclid(u), (i64::MIN as i128).div_euclid(u),
             (i64::MAX as i128).div_euclid(u) + 1, (i64::MIN as i128).div_euclid(u) - 1];
         for d in -2..=2 { cs.push(lo + d); cs.push(hi + d); }
+        // counts that fall on the seams of the 400-year cycle (1 January of a year 400 k, and day number 146 097 k), at noon and at midnight
+        for k in cycle_ks(ctx.t(0, 4000)) { for base in [0i128, -365] { for secs in [0i128, 45_296, -1] {
+            let c = ((146_097 * k as i128 + base - EPOCH_DAY) * 86_400 + secs) * NS;
+            if c >= min_ns() && c <= max_ns() { cs.push(c.div_euclid(u)); }
+        } } }
         for _ in 0..ctx.t(300, 20_000) {
             cs.push(match rng.below(3) { 0 => rng.loguniform(63) as i128, 1 => rng.next() as i64 as i128, _ => lo + (rng.next() as i128 % (hi - lo + 1)) });
         }
